@@ -377,7 +377,37 @@ def r08_8(ctx) -> None:
               f"ECDH-ES shared secret: encrypt {ze} decrypt {zd}", "ECDH(ephemeral, recipient) / ECDH(recipient, imported epk)", construct="ECDH-ES shared secret")
 
 
+def r08_9(ctx) -> None:
+    """the ECDH shared secret Z handed to the KDF is the primitive's raw output: every exchange_derive_key returns
+    <own private key>.exchange(...) itself - not a slice, a padded or otherwise re-sized copy (P-521: 66 octets, not 65)"""
+    eng = ctx.eng
+    P = eng.prog
+    ck = P.cls("rfc7517.models:CurveKey")
+    fs = [f for f in eng.prog.implementations(ck, "exchange_derive_key") if not f.is_abstract]
+    ctx.count("R08.9", len(fs), 2, "exchange_derive_key implementations")
+    for fn in fs:
+        sn = fn.self_name
+        rets = [r.value for r in fn_nodes(fn) if isinstance(r, ast.Return) and r.value is not None]
+        ok = bool(rets)
+        got = []
+        for rv in rets:
+            for t in resolve_all(eng, fn, rv):
+                got.append(t)
+                try:
+                    e = ast.parse(t, mode="eval").body
+                except SyntaxError:
+                    ok = False
+                    continue
+                if not (isinstance(e, ast.Call) and isinstance(e.func, ast.Attribute) and e.func.attr == "exchange" and norm(e.func.value) == f"{sn}.private_key"):
+                    ok = False
+        ctx.check(ok, "R08.9", fn, fn.node, fn.short, f"exchange_derive_key does not return the raw output of the key-agreement primitive: {got[:2]}", f"return {sn}.private_key.exchange(...)",
+                  construct=f"raw ECDH output in {fn.short}")
+
+
 def run(ctx) -> None:
+    ctx.guard(r08_9)
+    from .c04 import r04_4
+    ctx.guard_as("R08.10", r04_4)  # the JOSE header of a recipient is the union of protected, shared unprotected and per-recipient members
     ctx.guard(r08_1)
     ctx.guard(r02_2_3)  # R08.2 consume side: reported under R02.2 / R02.3
     ctx.guard(r08_2_produce)
